@@ -341,7 +341,10 @@ fn build_def(rng: &mut Rng, req: &mut String) -> RecordDefinition<NativeDatumDet
             };
             ctr += 1;
             // sometimes re-use the name of a datum removed in this very step (legal: names are per variant)
-            let name = if !freed_names.is_empty() && rng.chance(1, 3) { freed_names.remove(0) } else { format!("f{}", ctr) };
+            // field names: mostly f<n>; sometimes shapes that name-based shortcuts in a generator could trip over
+            let name = if !freed_names.is_empty() && rng.chance(1, 3) { freed_names.remove(0) } else {
+                match rng.below(12) { 0 => format!("f{}_mut", ctr), 1 => format!("_f{}", ctr), 2 => format!("get_f{}", ctr), 3 => format!("f{}_", ctr), 4 => format!("is_mut{}", ctr), _ => format!("f{}", ctr) }
+            };
             let uninit = copy && (shape == 2 || (shape == 4 && v > 0) || rng.chance(1, 3));
             let id = b.add_datum_override::<(), _>(name.clone(), DatumDefinitionOverride { type_name: Some(ty.to_string()), size: Some(size), align: Some(align), allow_uninit: Some(uninit) }).unwrap();
             let id: usize = format!("{}", id).parse().unwrap();
@@ -421,8 +424,24 @@ fn main() {
         i += 1;
     }
     std::fs::create_dir_all(labdir).unwrap();
-    std::fs::write(format!("{}/panics.txt", labdir), panics).unwrap();
+    std::fs::write(format!("{}/panics.txt", labdir), &panics).unwrap();
     std::fs::write(format!("{}/layouts.txt", labdir), layouts).unwrap();
+    for (name, close) in [("mempty", false), ("mempty1", true)] {
+        let built = std::panic::catch_unwind(|| {
+            let mut b = NativeRecordDefinitionBuilder::new(HostTypeResolver);
+            if close { b.close_record_variant(); }
+            let def = b.build();
+            let cfg = GeneratorConfig::default_with_custom_generators([Box::new(CloneImplGenerator) as Box<dyn FragmentGenerator>, Box::new(SerdeImplGenerator) as Box<dyn FragmentGenerator>]);
+            (truc::generator::generate(&def, &cfg), truc::generator::generate(&def, &GeneratorConfig::default()))
+        });
+        match built {
+            Ok((t1, t2)) => {
+                writeln!(main_rs, "mod {} {{\n    use crate::support::*;\n{}\n}}\nmod {}_cfg0 {{\n    use crate::support::*;\n{}\n}}\n", name, t1, name, t2).unwrap();
+            }
+            Err(_) => panics.push_str(&format!("PANIC while building / generating this definition\nreset native 0 n\n{}build\n--\n", if close { "close simple\n" } else { "" })),
+        }
+    }
+    std::fs::write(format!("{}/panics.txt", labdir), &panics).unwrap();
     writeln!(main_rs, "fn main() {{\n    let dir = std::env::args().nth(1).unwrap();\n    let mut out = Out::open(&dir);\n{}}}", calls).unwrap();
     std::fs::create_dir_all(format!("{}/src", labdir)).unwrap();
     std::fs::write(format!("{}/src/main.rs", labdir), main_rs).unwrap();
